@@ -97,8 +97,11 @@ type rCase struct {
 	build          func(wrap func(api.RateFunction) api.RateFunction) (*api.Trigger, error)
 	bodyMaxUs      int
 	failEvery      int
-	failSetupOnRun int  // consecutive runs on one metrics instance: the setup of this run (1-based) fails
-	failEarly      bool // planned failures are marked at the START of the body (the flag must survive until the body ends)
+	mixNames       bool   // consecutive runs on one metrics instance use different scenario names
+	scnName        string // scenario name of this run ("" = scn)
+	failSetupOnRun int    // consecutive runs on one metrics instance: the setup of this run (1-based) fails
+	helperEvery    int    // every helperEvery-th body works in a helper goroutine guarded by testing.CheckResults(t, done) that panics
+	failEarly      bool   // planned failures are marked at the START of the body (the flag must survive until the body ends)
 	panicEvery     int
 	labels         map[string]string
 	opts           func(*options.RunOptions)
@@ -253,6 +256,9 @@ func (h *rHandler) Handle(_ context.Context, rc slog.Record) error {
 	switch rc.Message {
 	case "progress", "Load Test Passed", "Load Test Failed":
 	default:
+		if strings.HasPrefix(rc.Message, "recovered panic") {
+			time.Sleep(2 * time.Millisecond) // a slow log sink: whoever waits for the panic to be handled waits for this too
+		}
 		switch {
 		case strings.Contains(rc.Message, "not completed after"):
 			h.rec.add(rEv{K: "timeoutmsg", C: h.rec.us()})
@@ -419,6 +425,10 @@ func runOne(c *ctx, rc rCase, m *metrics.Metrics) rTrace {
 			if pan {
 				out = 1
 			}
+			helper := rc.helperEvery > 0 && (id+seed)%int64(rc.helperEvery) == 0
+			if helper {
+				out = 1
+			}
 			t.Cleanup(func() {
 				if rc.cfg.CleanupUs > 0 {
 					time.Sleep(time.Duration(rc.cfg.CleanupUs) * time.Microsecond)
@@ -456,6 +466,24 @@ func runOne(c *ctx, rc rCase, m *metrics.Metrics) rTrace {
 			} else if rc.bodyMaxUs > 0 {
 				time.Sleep(time.Duration((id*7919+seed*31)%int64(rc.bodyMaxUs)) * time.Microsecond)
 			}
+			if helper {
+				// the documented way to run part of an iteration in another goroutine: its panic is that iteration's failure
+				done := make(chan struct{}, 1)
+				go func() {
+					defer f1testing.CheckResults(t, done)
+					switch id % 3 {
+					case 0:
+						panic("helper goroutine: planned panic")
+					case 1:
+						panic(fmt.Errorf("helper goroutine: planned error %d", id))
+					default:
+						var mp map[string]int
+						mp["x"] = 1 // runtime error
+					}
+				}()
+				<-done
+				return
+			}
 			if pan {
 				panic("planned panic")
 			}
@@ -466,7 +494,7 @@ func runOne(c *ctx, rc rCase, m *metrics.Metrics) rTrace {
 	}
 	logger := slog.New(&rHandler{rec: rec})
 	out := ui.NewOutput(logger, ui.NewDiscardPrinter(), false, false)
-	sr := simpleRun{Concurrency: rc.cfg.Conc, MaxIter: uint64(rc.cfg.MaxIter), MaxDuration: time.Duration(rc.cfg.MaxDurUs) * time.Microsecond,
+	sr := simpleRun{Scenario: rc.scnName, Concurrency: rc.cfg.Conc, MaxIter: uint64(rc.cfg.MaxIter), MaxDuration: time.Duration(rc.cfg.MaxDurUs) * time.Microsecond,
 		WaitTimeout: time.Duration(rc.cfg.WaitUs) * time.Microsecond, Metrics: m, Output: out, Opts: rc.opts}
 	ctxRun, cancel := context.WithCancel(context.Background())
 	defer cancel()
@@ -514,7 +542,8 @@ func runOne(c *ctx, rc rCase, m *metrics.Metrics) rTrace {
 		select {
 		case dr = <-doneCh:
 		case <-time.After(10 * time.Second):
-			tr.Err = "run never returned even after releasing blocked bodies"
+			// an observation of the real code, not a harness failure: the trace ends with `noreturn` and no `ret`
+			rec.add(rEv{K: "noreturn", C: rec.us(), S: "still not returned 10 s after every blocked body was released"})
 			rec.mu.Lock()
 			tr.Ev = append([]rEv{}, rec.ev...)
 			rec.mu.Unlock()
@@ -572,7 +601,11 @@ func runOne(c *ctx, rc rCase, m *metrics.Metrics) rTrace {
 					got[l.GetName()] = l.GetValue()
 				}
 				fam := int64(0)
-				want := map[string]string{"test": "scn", "result": got["result"]}
+				scnName := rc.scnName
+				if scnName == "" {
+					scnName = "scn"
+				}
+				want := map[string]string{"test": scnName, "result": got["result"]}
 				if f.GetName() == "form3_loadtest_setup" {
 					fam = 1
 				} else {
@@ -917,6 +950,32 @@ func buildCases(c *ctx) []rCase {
 		rc.cfg.MetricsRuns = 3
 		add(rc)
 	}
+	// part of the body runs in a helper goroutine guarded by testing.CheckResults(t, done) and panics there
+	for _, mode := range []string{"users", "constant"} {
+		var rc rCase
+		if mode == "users" {
+			rc = rCase{cfg: rCfg{Name: "helper-goroutine-users", Mode: "users", Conc: 2, MaxIter: 40, MaxDurUs: 3000 * ms},
+				build: func(func(api.RateFunction) api.RateFunction) (*api.Trigger, error) {
+					return users.Rate().New(users.Rate().Flags)
+				}}
+		} else {
+			rc = constantCase("helper-goroutine-constant", "4/10ms", 10*ms, 3, 40, 3000*ms, "none")
+		}
+		rc.bodyMaxUs = 500
+		rc.helperEvery = 2
+		add(rc)
+	}
+	// consecutive runs of DIFFERENT scenarios on one metrics instance: nothing of the other scenario's run is exported
+	{
+		rc := constantCase("metrics-runs-mixed-scenarios", "40/10ms", 10*ms, 12, 140, 2000*ms, "none")
+		rc.bodyMaxUs = 300
+		rc.failEvery = 3
+		rc.labels = labelSets[1]
+		rc.cfg.Labels = labelString(labelSets[1])
+		rc.cfg.MetricsRuns = 3
+		rc.mixNames = true
+		add(rc)
+	}
 	// a run whose setup fails, between two ordinary runs on the same metrics instance: it exports no iteration
 	// samples of its predecessor
 	for k := 0; k < 2; k++ {
@@ -1131,6 +1190,9 @@ func init() {
 			m := metrics.NewInstance(prometheus.NewRegistry(), true, rc.labels)
 			for run := 0; run < rc.cfg.MetricsRuns; run++ {
 				rc.cfg.RunIndex = run
+				if rc.mixNames {
+					rc.scnName = fmt.Sprintf("scn-%d", run%2) // a different scenario than the previous run's
+				}
 				if rc.failSetupOnRun > 0 {
 					rc.cfg.SetupFail = rc.failSetupOnRun == run+1
 					rc.cfg.SetupMode = "failnow"
